@@ -70,6 +70,7 @@ ASSUME ToDays(1972, 2, 29) = 789
 Kinds == { <<"Z1", 0, 1>>, <<"S1", 0, 1000>>, <<"M1", 0, 60000>>, <<"H1", 0, 3600000>>,
            <<"D1", 1, 0>>, <<"D31", 31, 0>>, <<"D365", 365, 0>>,
            <<"B1", 0, -1000>>, <<"S3661", 0, 3661000>>,
+           <<"MB45", 0, -2700000>>, <<"HB5", 0, -18000000>>,         \* 45 minutes / 5 hours BACK (addMin, addHour with negative arguments)
            <<"DM1", -1, 0>>, <<"DMD", 0, 0>> }       \* one day back; back by the day of the month (lands on the last day of the previous month)
 KDays(k) == IF k[1] = "DMD" THEN 0 - d ELSE k[2]
 
